@@ -255,31 +255,34 @@ func query(sock, unit string) view {
 
 // observation is one crash/restart experiment on one unit.
 type observation struct {
-	Scenario   string        `json:"scenario"`
-	Kind       string        `json:"kind"` // local | remote-bound | remote-unbound
-	Plan       plan          `json:"plan"`
-	Crash      crashSpec     `json:"crash"`
-	Reached    bool          `json:"crash_reached"`
-	Acked      bool          `json:"acked"`   // the unit ID had been returned to the submitter
-	Replied    bool          `json:"replied"` // the final reply of `work submit` had arrived
-	Unit       string        `json:"unit"`
-	Spawned    bool          `json:"runner_spawned"`       // a command runner process existed at some time
-	RunnerUp   bool          `json:"runner_alive"`         // ... and was alive when the daemon was started again
-	Before     *view         `json:"before,omitempty"`     // last status seen before the crash, if any
-	Finished   bool          `json:"finished_before"`      // ... and it was a finished one
-	AtRestart  view          `json:"at_restart"`           // first answers after the restart
-	Final      view          `json:"final"`                // after waiting for the unit to finish
-	Results    string        `json:"results"`              // "complete" | "short:<n>" | "wrong" | "no-end" | "error:…" | "" (not asked)
-	Cycle2     *view         `json:"cycle2,omitempty"`     // after one more kill/restart
-	StatusRaw  string        `json:"status_file_at_crash"` // "absent" | "empty" | "json"
-	StatusDown string        `json:"status_file_before_restart"`
-	LocalOut   int           `json:"stdout_bytes_at_restart"`
-	Notes      []string      `json:"notes,omitempty"`
-	Results2   string        `json:"results_after_second_restart"`
-	Disk       *view         `json:"record_on_disk,omitempty"` // the status file once nothing writes any more
-	DiskOut    int           `json:"stdout_bytes_on_disk"`
-	HeldState  int           `json:"record_state_when_runner_held"`
-	Residents  []residentObs `json:"residents,omitempty"`
+	Scenario      string        `json:"scenario"`
+	Kind          string        `json:"kind"` // local | remote-bound | remote-unbound
+	Plan          plan          `json:"plan"`
+	Crash         crashSpec     `json:"crash"`
+	Reached       bool          `json:"crash_reached"`
+	Acked         bool          `json:"acked"`   // the unit ID had been returned to the submitter
+	Replied       bool          `json:"replied"` // the final reply of `work submit` had arrived
+	Unit          string        `json:"unit"`
+	Spawned       bool          `json:"runner_spawned"`       // a command runner process existed at some time
+	RunnerUp      bool          `json:"runner_alive"`         // ... and was alive when the daemon was started again
+	Before        *view         `json:"before,omitempty"`     // last status seen before the crash, if any
+	Finished      bool          `json:"finished_before"`      // ... and it was a finished one
+	AtRestart     view          `json:"at_restart"`           // first answers after the restart
+	Final         view          `json:"final"`                // after waiting for the unit to finish
+	Results       string        `json:"results"`              // "complete" | "short:<n>" | "wrong" | "no-end" | "error:…" | "" (not asked)
+	Cycle2        *view         `json:"cycle2,omitempty"`     // after one more kill/restart
+	StatusRaw     string        `json:"status_file_at_crash"` // "absent" | "empty" | "json"
+	StatusDown    string        `json:"status_file_before_restart"`
+	LocalOut      int           `json:"stdout_bytes_at_restart"`
+	Notes         []string      `json:"notes,omitempty"`
+	Results2      string        `json:"results_after_second_restart"`
+	Disk          *view         `json:"record_on_disk,omitempty"` // the status file once nothing writes any more
+	DiskOut       int           `json:"stdout_bytes_on_disk"`
+	HeldState     int           `json:"record_state_when_runner_held"`
+	Stdin         string        `json:"stdin_on_disk,omitempty"` // "kept" | "differs:…" (only when the final reply had arrived)
+	DuringRestart string        `json:"results_during_restart,omitempty"`
+	Late          *view         `json:"late_planted_unit,omitempty"`
+	Residents     []residentObs `json:"residents,omitempty"`
 }
 
 // ---------- run ----------
